@@ -25,8 +25,8 @@ def build(chk):
     tr_c02_interp.main()
     tr_c02_gvn.main()
     exe = vlib.build_harness('c20_insn', ['c02_insn.c'], units=('mir', 'mir-gen', 'mir2c'), defs=['-DC02_WITH_MIR2C'])
-    oracle = c02.Oracle(vlib.ocaml_build('c02', 'Extract_C02', ['c02x'], 'driver_c02.ml'))
-    model = c02.Oracle(vlib.ocaml_build('c20', 'Extract_C20', ['c20x'], 'driver_c20.ml'))
+    oracle = c02.Oracle(c02.private_copy(vlib.ocaml_build('c02', 'Extract_C02', ['c02x'], 'driver_c02.ml')))
+    model = c02.Oracle(c02.private_copy(vlib.ocaml_build('c20', 'Extract_C20', ['c20x'], 'driver_c20.ml')))
     return exe, oracle, model
 
 
@@ -131,13 +131,14 @@ def run(chk):
     problems = []
     if ops != tr_opcodes.committed():
         problems.append('opcode enumeration of mir.h differs from coq/Mir/Opcode.v')
-    tr_c20_mir2c.main()
-    r = chk.prove()
+    with vlib.Lock(c02.GENLOCK):
+        tr_c20_mir2c.main()
+        r = chk.prove()
+        exe, oracle, model = build(chk)
     for ax in sorted(set(re.findall(r'^((?:ClassicalDedekindReals|FunctionalExtensionality|Classical_Prop)\.\w+)', r['log'], re.M))):
         t = 'axiom (Print Assumptions): ' + ax     # multi-line axiom types are not caught by vlib's parser
         if t not in chk.cov['trusted_base']:
             chk.cov['trusted_base'].append(t)
-    exe, oracle, model = build(chk)
     infos = G.opcode_infos(oracle.ask, ops)
     chk.cov['trusted_base'] += ['translator tools/tr_c20_mir2c.py (symbolic execution of the printing code of out_insn; unknown text => SUnknown => theorem fails)',
                                 'Mir/CExpr.v: C11 typing + two\'s-complement machine semantics, GCC __builtin_*_overflow as documented by GCC',
@@ -232,7 +233,8 @@ def replay(chk, path):
         from checks import c20_modules
         return c20_modules.replay_module(chk, j)
     ops = tr_opcodes.opcodes()
-    exe, oracle, model = build(chk)
+    with vlib.Lock(c02.GENLOCK):
+        exe, oracle, model = build(chk)
     infos = G.opcode_infos(oracle.ask, ops)
     wd = workdir()
     try:
